@@ -1,17 +1,30 @@
 (* C12: size-symbol candidates / calldataload branching, and what parse_type lets through. *)
 From Coq Require Import String.
 From Coq Require Import ZArith List Bool Lia ZifyBool.
-From HV Require Import Spec.AbiSpec Gen.GenAbiEnc Model.AbiEncModel Proofs.AbiEncProofs Proofs.AbiEncInv.
+From HV Require Import Spec.AbiSpec Gen.GenAbiEnc Gen.GenDynParams Model.AbiEncModel Proofs.AbiEncProofs Proofs.AbiEncInv.
 Import ListNotations.
 Open Scope Z_scope.
 
 (* ------------------------------------------------------------------ candidates *)
 
-Lemma process_rev : forall ds acc, process_dyn_params ds acc = rev (map dpair ds) ++ acc.
+(* what the regenerated process_dyn_params does: every parameter is bound, nothing else changes *)
+Lemma fold_register : forall (ds acc : list (nat * list nat)),
+  fold_left (fun m d => (fst d, snd d) :: m) ds acc = rev ds ++ acc.
 Proof.
-  unfold process_dyn_params. induction ds as [|d ds IH]; intros acc; cbn; [reflexivity|].
+  induction ds as [|[k v] ds IH]; intros acc; cbn; [reflexivity|].
   rewrite IH. rewrite <- app_assoc. reflexivity.
 Qed.
+
+(* (robust against the equivalent forms the translator accepts: early return on an empty list,
+   dict.update with a comprehension) *)
+Lemma gen_process_rev : forall ds acc, gen_process_dyn_params ds acc = rev ds ++ acc.
+Proof.
+  intros ds acc. unfold gen_process_dyn_params.
+  destruct ds as [|d ds]; cbv beta iota zeta; rewrite ?fold_register; reflexivity.
+Qed.
+
+Lemma process_rev : forall ds acc, process_dyn_params ds acc = rev (map dpair ds) ++ acc.
+Proof. intros ds acc. unfold process_dyn_params. apply gen_process_rev. Qed.
 
 Lemma assoc_in : forall {A} (m : list (nat * A)) k v,
   NoDup (map fst m) -> In (k, v) m -> assoc m k = Some v.
@@ -45,11 +58,178 @@ Theorem candidates_branch : forall t c name k e ds k' d,
   = map (fun n => (Some (d_id d, n), PConst (Z.of_nat n))) (d_sizes d).
 Proof.
   intros t c name k e ds k' d H Hin. pose proof (encode_inv _ _ _ _ _ _ _ H) as Hi.
-  unfold calldataload. cbn [assoc]. rewrite process_rev, app_nil_r.
+  unfold calldataload, gen_calldataload. cbn [assoc]. rewrite process_rev, app_nil_r.
   rewrite (assoc_in _ (d_id d) (d_sizes d)); [reflexivity| |].
   - rewrite map_rev. apply NoDup_rev. rewrite <- (inv_dyn _ _ _ _ _ Hi).
     apply dyns_keys_nodup. exact (inv_nodup _ _ _ _ _ Hi).
   - apply -> in_rev. apply (in_map dpair) in Hin. exact Hin.
+Qed.
+
+(* ------------------------------------------------------------------ several calldata in one path *)
+
+Lemma assoc_app : forall {A} (a b : list (nat * A)) k,
+  assoc (a ++ b) k = match assoc a k with Some v => Some v | None => assoc b k end.
+Proof.
+  intros A a b k. induction a as [|[k' v] a IH]; [reflexivity|].
+  cbn [app assoc]. destruct (Nat.eqb k' k); [reflexivity|exact IH].
+Qed.
+
+Lemma assoc_notin : forall {A} (m : list (nat * A)) k, ~ In k (map fst m) -> assoc m k = None.
+Proof.
+  intros A m k. induction m as [|[k' v] m IH]; intros H; [reflexivity|].
+  cbn [assoc]. destruct (Nat.eqb_spec k' k) as [->|]; [exfalso; apply H; left; reflexivity|].
+  apply IH. intros Hin. apply H. right. exact Hin.
+Qed.
+
+Lemma dyns_in_ids : forall its k sz, In (k, sz) (dyns its) -> In k (ids its).
+Proof.
+  induction its as [|it its IH]; intros k sz Hin; [destruct Hin|].
+  unfold dyns in Hin. cbn [flat_map] in Hin. fold (dyns its) in Hin.
+  unfold ids. cbn [flat_map]. fold (ids its). apply in_or_app. apply in_app_or in Hin.
+  destruct Hin as [Hin|Hin]; [left|right; eapply IH; exact Hin].
+  destruct it; cbn in *; try tauto. destruct Hin as [Heq|[]]. inversion Heq. left. reflexivity.
+Qed.
+
+(* registering the dynamic parameters of a calldata binds each of them ... *)
+Lemma process_assoc_new : forall t c name k e ds k' d cands,
+  encode c name t k = (e, ds, k') -> In d ds ->
+  assoc (process_dyn_params ds cands) (d_id d) = Some (d_sizes d).
+Proof.
+  intros t c name k e ds k' d cands H Hin. pose proof (encode_inv _ _ _ _ _ _ _ H) as Hi.
+  rewrite process_rev, assoc_app.
+  rewrite (assoc_in _ (d_id d) (d_sizes d)); [reflexivity| |].
+  - rewrite map_rev. apply NoDup_rev. rewrite <- (inv_dyn _ _ _ _ _ Hi).
+    apply dyns_keys_nodup. exact (inv_nodup _ _ _ _ _ Hi).
+  - apply -> in_rev. apply (in_map dpair) in Hin. exact Hin.
+Qed.
+
+(* ... and leaves the candidates of every symbol created before (or after) this calldata alone *)
+Lemma process_assoc_old : forall t c name k e ds k' cands i,
+  encode c name t k = (e, ds, k') -> ~ (k <= i < k')%nat ->
+  assoc (process_dyn_params ds cands) i = assoc cands i.
+Proof.
+  intros t c name k e ds k' cands i H Hout. pose proof (encode_inv _ _ _ _ _ _ _ H) as Hi.
+  rewrite process_rev, assoc_app. rewrite assoc_notin; [reflexivity|].
+  intros Hin. apply Hout. rewrite map_rev in Hin. apply in_rev in Hin.
+  rewrite <- (inv_dyn _ _ _ _ _ Hi) in Hin. apply in_map_iff in Hin. destruct Hin as ([k0 sz] & Hk & Hin).
+  cbn in Hk. subst k0. apply dyns_in_ids in Hin. exact (inv_ids _ _ _ _ _ Hi _ Hin).
+Qed.
+
+Lemma dyn_id_range : forall t c name k e ds k' d,
+  encode c name t k = (e, ds, k') -> In d ds -> (k <= d_id d < k')%nat.
+Proof.
+  intros t c name k e ds k' d H Hin. pose proof (encode_inv _ _ _ _ _ _ _ H) as Hi.
+  apply (inv_ids _ _ _ _ _ Hi). apply (dyns_in_ids _ _ (d_sizes d)).
+  rewrite (inv_dyn _ _ _ _ _ Hi). apply (in_map dpair) in Hin. exact Hin.
+Qed.
+
+(* the invariant of a path: every dynamic parameter registered so far was created before the
+   current symbol index and still has exactly its candidates *)
+Definition path_inv (s : pstate) (regs : list dynp) : Prop :=
+  forall d, In d regs -> (d_id d < p_next s)%nat /\ assoc (p_cands s) (d_id d) = Some (d_sizes d).
+
+Lemma pstep_inv : forall s ev s1 ds1 regs,
+  path_inv s regs -> pstep s ev = (s1, ds1) -> path_inv s1 (regs ++ ds1).
+Proof.
+  intros s ev s1 ds1 regs Hinv Hstep. destruct ev as [c t| | |k z|n]; cbn [pstep] in Hstep.
+  - unfold create in Hstep. destruct (encode c [] t (p_next s)) as [[e ds] k'] eqn:E.
+    inversion Hstep; subst s1 ds1; clear Hstep.
+    pose proof (inv_le _ _ _ _ _ (encode_inv _ _ _ _ _ _ _ E)) as Hle.
+    intros d Hin. apply in_app_or in Hin. cbn [p_next p_cands]. destruct Hin as [Hin|Hin].
+    + destruct (Hinv d Hin) as [Hlt Has]. split; [lia|].
+      rewrite (process_assoc_old _ _ _ _ _ _ _ _ _ E); [exact Has|lia].
+    + split; [exact (proj2 (dyn_id_range _ _ _ _ _ _ _ _ E Hin))|].
+      exact (process_assoc_new _ _ _ _ _ _ _ _ _ E Hin).
+  - unfold gen_branch_conc in Hstep. inversion Hstep; subst s1 ds1. rewrite app_nil_r. exact Hinv.
+  - unfold gen_extend_conc in Hstep. inversion Hstep; subst s1 ds1. rewrite app_nil_r. exact Hinv.
+  - inversion Hstep; subst s1 ds1. rewrite app_nil_r. exact Hinv.
+  - inversion Hstep; subst s1 ds1. rewrite app_nil_r.
+    intros d Hin. destruct (Hinv d Hin) as [Hlt Has]. cbn [p_next p_cands]. split; [lia|exact Has].
+Qed.
+
+Lemma prun_inv : forall evs s s' ds regs,
+  path_inv s regs -> prun s evs = (s', ds) -> path_inv s' (regs ++ ds).
+Proof.
+  induction evs as [|ev evs IH]; intros s s' ds regs Hinv H; cbn [prun] in H.
+  - inversion H; subst. rewrite app_nil_r. exact Hinv.
+  - destruct (pstep s ev) as [s1 ds1] eqn:E1. destruct (prun s1 evs) as [s2 ds2] eqn:E2.
+    inversion H; subst s' ds. rewrite app_assoc.
+    eapply IH; [|exact E2]. eapply pstep_inv; eassumption.
+Qed.
+
+(* whatever else the path registered, copied or fixed before or after: every size symbol of every
+   calldata of the path still branches over exactly its candidates (or reads as the constant the
+   path has fixed it to) *)
+Theorem candidates_path : forall evs s s' all d,
+  prun s evs = (s', all) -> In d all ->
+  calldataload (p_subst s') (p_cands s') (LVar (d_id d))
+  = match assoc (p_subst s') (d_id d) with
+    | Some z => [(None, PConst z)]
+    | None => map (fun n => (Some (d_id d, n), PConst (Z.of_nat n))) (d_sizes d)
+    end.
+Proof.
+  intros evs s s' all d H Hin.
+  assert (Hinv : path_inv s' ([] ++ all)) by (eapply prun_inv; [|exact H]; intros ? []).
+  destruct (Hinv d Hin) as [_ Has]. unfold calldataload, gen_calldataload. rewrite Has. reflexivity.
+Qed.
+
+(* ... and these candidates are the configured ones of the calldata event that created it *)
+Lemma pstep_configured : forall s ev s1 ds1 d,
+  pstep s ev = (s1, ds1) -> In d ds1 ->
+  exists c t, ev = EvCalldata c t /\ d_sizes d = cand c (d_name d) (d_array d).
+Proof.
+  intros s ev s1 ds1 d Hstep Hin. destruct ev as [c t| | |k z|n]; cbn [pstep] in Hstep.
+  - unfold create in Hstep. destruct (encode c [] t (p_next s)) as [[e ds] k'] eqn:E.
+    inversion Hstep; subst s1 ds1. exists c, t. split; [reflexivity|].
+    pose proof (inv_dcand _ _ _ _ _ (encode_inv _ _ _ _ _ _ _ E)) as Hc.
+    rewrite Forall_forall in Hc. exact (Hc d Hin).
+  - destruct (gen_branch_conc _ _). inversion Hstep; subst. destruct Hin.
+  - destruct (gen_extend_conc _ _). inversion Hstep; subst. destruct Hin.
+  - inversion Hstep; subst. destruct Hin.
+  - inversion Hstep; subst. destruct Hin.
+Qed.
+
+Theorem path_configured : forall evs s s' all d,
+  prun s evs = (s', all) -> In d all ->
+  exists c t, In (EvCalldata c t) evs /\ d_sizes d = cand c (d_name d) (d_array d).
+Proof.
+  induction evs as [|ev evs IH]; intros s s' all d H Hin; cbn [prun] in H.
+  - inversion H; subst. destruct Hin.
+  - destruct (pstep s ev) as [s1 ds1] eqn:E1. destruct (prun s1 evs) as [s2 ds2] eqn:E2.
+    inversion H; subst s' all. apply in_app_or in Hin. destruct Hin as [Hin|Hin].
+    + destruct (pstep_configured _ _ _ _ _ E1 Hin) as (c & t & -> & Hc). exists c, t. split; [left; reflexivity|exact Hc].
+    + destruct (IH _ _ _ _ E2 Hin) as (c & t & Hev & Hc). exists c, t. split; [right; exact Hev|exact Hc].
+Qed.
+
+(* symbols of different calldata of one path are distinct (the counter only moves forward) *)
+Lemma pstep_next_le : forall s ev, (p_next s <= p_next (fst (pstep s ev)))%nat.
+Proof.
+  intros s ev. destruct ev as [c t| | |k z|n]; cbn [pstep].
+  - unfold create. destruct (encode c [] t (p_next s)) as [[e ds] k'] eqn:E. cbn [fst p_next].
+    exact (inv_le _ _ _ _ _ (encode_inv _ _ _ _ _ _ _ E)).
+  - destruct (gen_branch_conc _ _). cbn. lia.
+  - destruct (gen_extend_conc _ _). cbn. lia.
+  - cbn. lia.
+  - cbn. lia.
+Qed.
+
+Theorem path_symbols_distinct : forall evs s,
+  NoDup (ids (pitems s evs)) /\ forall i, In i (ids (pitems s evs)) -> (p_next s <= i)%nat.
+Proof.
+  induction evs as [|ev evs IH]; intros s; cbn [pitems].
+  - split; [constructor|intros i []].
+  - destruct (IH (fst (pstep s ev))) as [IHn IHr]. pose proof (pstep_next_le s ev) as Hle.
+    rewrite ids_app. destruct ev as [c t| | |k z|n]; cbn [app ids flat_map];
+      try (split; [exact IHn|intros i Hi; apply IHr in Hi; lia]).
+    fold (ids (e_items (fst (fst (create c t (p_next s)))))).
+    unfold create in *. cbn [pstep] in *. unfold create in *.
+    destruct (encode c [] t (p_next s)) as [[e ds] k'] eqn:E. cbn [fst p_next] in *.
+    pose proof (encode_inv _ _ _ _ _ _ _ E) as Hi. split.
+    + apply NoDup_app_intro; [exact (inv_nodup _ _ _ _ _ Hi)|exact IHn|].
+      intros i H1 H2. apply (inv_ids _ _ _ _ _ Hi) in H1. apply IHr in H2. lia.
+    + intros i Hin. apply in_app_or in Hin. destruct Hin as [Hin|Hin].
+      * apply (inv_ids _ _ _ _ _ Hi) in Hin. lia.
+      * apply IHr in Hin. lia.
 Qed.
 
 (* ------------------------------------------------------------------ parse_type: what gets through *)
@@ -175,12 +355,12 @@ Qed.
 
 Theorem calldataload_fixed : forall subst cands k z,
   assoc subst k = Some z -> calldataload subst cands (LVar k) = [(None, PConst z)].
-Proof. intros subst cands k z H. unfold calldataload. rewrite H. reflexivity. Qed.
+Proof. intros subst cands k z H. unfold calldataload, gen_calldataload. rewrite H. reflexivity. Qed.
 
 Theorem calldataload_other : forall subst cands k,
   assoc subst k = None -> assoc cands k = None ->
   calldataload subst cands (LVar k) = [(None, PSame)] /\ calldataload subst cands LOther = [(None, PSame)].
-Proof. intros subst cands k H1 H2. unfold calldataload. rewrite H1, H2. split; reflexivity. Qed.
+Proof. intros subst cands k H1 H2. unfold calldataload, gen_calldataload. rewrite H1, H2. split; reflexivity. Qed.
 
 Theorem parse_reject : forall inputs t s,
   parse_inputs inputs = Some t -> In s (leaves t) ->
